@@ -622,7 +622,8 @@ def shape_key(j, item):
 
 def select_representatives(images, raw_ids=()):
     """[(image, only)] keeping one item per distinct shape; images left with nothing are dropped.
-    Images of the programs in raw_ids (the standard library) are always analysed whole."""
+    Images of the programs in raw_ids (the standard library, the pinned probes) are always analysed
+    whole."""
     seen, out, total, kept = set(), [], 0, 0
     for j in sorted(images, key=lambda j: 0 if j["id"] in raw_ids else 1):
         if j["id"] in raw_ids:
@@ -763,6 +764,27 @@ def vmstack_check(check, images, tag, procs=4, workers=4, representatives=False,
     return viols, stats
 
 
+ALL_OPS = ["Constant", "Pop", "Duplicate", "Pick", "Rotate", "Reset", "Load", "Store", "Tuple", "Get", "IsType",
+           "Jump", "JumpIf", "Call", "TailCall", "Function", "Builtin", "Equal", "Not", "Spawn", "Send", "Self",
+           "Select", "Process"]
+
+
+def ops_exercised(traces):
+    """How many validated steps executed each instruction (the last observation of a trace is
+    not followed by a validated step)."""
+    n = {}
+    for r in traces:
+        if r.get("status") != "ok":
+            continue
+        codes = [[i["op"] for i in f["code"]] for f in r["fns"]]
+        obs = r.get("obs", [])
+        for o in obs[:-1]:
+            if o[0] >= 0 and o[1] < len(codes[o[0]]):
+                op = codes[o[0]][o[1]]
+                n[op] = n.get(op, 0) + 1
+    return n
+
+
 def vmtrace_check(check, traces, tag, procs=4, workers=4):
     """TLC VMTrace over vmtrace records.  Returns (runtime violations, drifts, observations)."""
     recs = [to_tlc_trace(r) for r in traces if r.get("status") == "ok" and r.get("obs")]
@@ -859,7 +881,7 @@ def pipeline(check, programs, tag, group_size=25, trace_keep=3000, trace_max=200
     t1 = time.time()
     sviol, stats = vmstack_check(check, images, tag, procs=tlc_procs, workers=tlc_workers,
                                  representatives=representatives,
-                                 raw_ids={p["id"] for p in programs if p.get("source") == "std"})
+                                 raw_ids={p["id"] for p in programs if p.get("source") in ("std", "probes")})
     m["vmstack_s"] = round(time.time() - t1, 1)
     m["static"] = stats
     violations = []
@@ -902,6 +924,9 @@ def pipeline(check, programs, tag, group_size=25, trace_keep=3000, trace_max=200
         m["traces"]["validated"] = sum(1 for r in ok if len(r.get("obs", [])) >= 2)
         m["traces"]["observations"] = nobs
         m["traces"]["drift"] = len(drifts)
+        ex = ops_exercised(ok)
+        m["traces"]["steps_per_instruction"] = ex
+        m["traces"]["instructions_bound_by_reading_only"] = [o for o in ALL_OPS if not ex.get(o)]
         for v in rviol:
             pid = v["id"][:-len("#shaken")] if str(v["id"]).endswith("#shaken") else v["id"]
             violations.append({"kind": "runtime", "program": tool_record(by_id[pid]) if pid in by_id else None,
@@ -1069,6 +1094,7 @@ def c16_pipeline(check, shapes, tag, keep_large, static=True):
     rviol, drifts, nobs = vmtrace_check(check, ok, tag, procs=4, workers=4)
     m["observations"] = nobs
     m["traces_validated"] = sum(1 for r in ok if len(r.get("obs", [])) >= 2)
+    m["steps_per_instruction"] = ops_exercised(ok)
     for v in rviol:
         tid = v["id"].rsplit("@", 1)[0]
         violations.append({"kind": "runtime", "program": {"id": v["id"], "lines": [src_of[tid][0 if v["id"].endswith("@N") else 1]]},
